@@ -25,20 +25,24 @@ PROP = dict(
     mc=[dict(module="ConnState", cfg="MC_ConnState.cfg"),
         dict(module="ConnState", cfg="MC_ConnState_thorough.cfg", tiers=("thorough",), timeout=1500)],
     trace=dict(module="ConnStateTrace", cfg="ConnStateTrace.cfg"),
-    nontrivial=_nontrivial, chunk_lines=2500,
+    nontrivial=_nontrivial, chunk_lines=2500, max_rejections=8,
     rule="seeded random histories (30-70 calls + one AddPending per slot at the end) on a real connstate.State with a clock.Mock: "
          "AddPending with random neighbour lists, DeletePending, MovePendingToActive / DeleteActive with up to 3 real *conn.Conn "
          "objects per (torrent, peer) slot (old objects are kept and re-used, so replaced connections occur), closing conns, "
          "Blacklist, ClearBlacklist, clock steps of 1..duration+1; 2 torrents x 4 peers, max conns 1-4, max mutual 1-2, "
-         "blacklist duration 1-3, blacklist disabled in 10% of the traces; every call logged with its reply class and, after the "
+         "blacklist duration 1-3, blacklist disabled in 10% of the traces; in every third trace the State is the one owned by a "
+         "real, unstarted scheduler state (export shim) and real announceResultEvent / failedOutgoingHandshakeEvent are applied "
+         "to it, each announce followed by an AddPending probe of every announced peer; every call logged with its reply class and, after the "
          "call, ActiveConns, Blacklisted for every slot, Saturated for every torrent and BlacklistSnapshot; non-trivial = an "
          "AddPending was refused for capacity or mutual connections, a conn became active, and a slot was blacklisted or an older "
          "conn object of a re-used slot was deleted",
     assumptions=["*conn.Conn objects for a chosen peer id are built through an export-only overlay shim "
                  "(harness/overlay/lib/torrent/scheduler/conn/verif_shim_c16.go -> Handshaker.newConn on a net.Pipe); "
                  "conn.PipeFixture only yields random peer ids",
-                 "the clause 'blacklisted peers are not dialled' is a contract between scheduler.announceResultEvent and "
-                 "State.Blacklisted; this check binds State.Blacklisted/Blacklist/ClearBlacklist/clock exactly and model-checks the "
-                 "Dial action of the specification, it does not drive the scheduler's event loop",
+                 "the clause 'blacklisted peers are not dialled' is checked on the real announceResultEvent.apply, applied "
+                 "synchronously to an unstarted scheduler's state through an export-only shim "
+                 "(harness/overlay/lib/torrent/scheduler/verif_shim_c16.go); 'dialled' is observed as the slot being pending "
+                 "afterwards (the outgoing handshake itself dials a closed local port and its result is not consumed); the "
+                 "scheduler's goroutines (event loop, announcer, listener) are not running",
                  "State is not thread-safe by contract; calls are issued sequentially"],
 )
